@@ -762,7 +762,7 @@ def main():
         corpus = os.path.join(vlib.VERIF, "corpus", "C10.json")
         if os.path.exists(corpus):
             scenarios += json.load(open(corpus))
-        n = int(os.environ.get("VERIF_C10_N", run.n(300, 10000)))     # VERIF_C10_N: development aid only
+        n = int(os.environ.get("VERIF_C10_N", run.n(300, 6000)))     # VERIF_C10_N: development aid only
         k = 0
         forced = [{"family": f, "period": p, "target": t, "span": s}
                   for f in ("daily", "hourly") for p in ("baseline",) for t, s in
